@@ -18,6 +18,8 @@ import Flax.Proofs.LiftLoopSpec
 import Flax.Proofs.LiftLoopScanMain
 import Flax.Proofs.LiftLoopVmap
 import Flax.Proofs.LiftLoopRemat
+import Flax.Proofs.LiftLoopFlat
+import Flax.Proofs.LiftLoopErrors
 
 set_option linter.unusedSectionVars false
 
@@ -467,16 +469,263 @@ theorem roles_first_match {α : Type} (fs : List LFilter) (d : Vars α) (m : LFi
 example : groupDict [("params", 1), ("cache", 2), ("stats", 3)] [.name "cache", .deny (.name "params"), .tt]
     = [[("cache", 2)], [("stats", 3)], [("params", 1)]] := by decide
 
-/-! ## 7. `lift.remat_scan` (stretch) -/
+/-! ## 7. error classes: which errors are flax's own, and exactly when they are raised
+
+`scan_eq_loop` / `vmap_eq_map` compare success and result.  The theorems below add the error side for the
+errors flax itself raises: 'Inconsistent scan lengths' / 'Inconsistent batch axis sizes'
+(`inconsistentLengths`), 'length / axis_size should be specified manually' (`lengthUnspecified`),
+'broadcasted variable has a data dependency on the scan body' (`broadcastDependency`), 'unmapped output
+variables' (`unmappedOutput`).  Every other error of the model is *foreign* (`Err.foreign`): JAX's
+(axis out of range, transposition, lax.scan / jax.vmap size mismatch or nothing to scan, carry structure,
+unbatched output expected), a structure check of the model, or the body's own (`.body tag`: e.g.
+ModifyScopeVariableError when the body writes a collection that the inner mutability filter of
+`roles_first_match` excludes).  Which foreign class is raised stays tied by the correspondence run only. -/
+
+/-- **every error of `lift.scan`, classified** (bodies raise only their own errors): flax's length errors come
+from `decideLength` on the sizes read off the arguments, before anything else; the broadcast-dependency error
+is raised exactly when the constancy check fails after a broadcast pass that itself went through; anything
+else is foreign -/
+theorem scan_error_classes {α : Type} [Inhabited α] (cfg : ScanCfg) (verdict : Bool) (body : Body α)
+    (hb : BodyForeign body) (m : LFilter) (outer : Vars α) (rngs : Rngs) (init args : List (Arr α)) (e : Err)
+    (h : liftScan cfg verdict body m outer rngs init args = .error e) :
+    (∃ sizes, argSizes cfg.inAxes args = .ok sizes ∧ decideLength cfg.length sizes = .error e ∧
+        (e = .inconsistentLengths ∨ e = .lengthUnspecified)) ∨
+    (e = .broadcastDependency ∧ verdict = false ∧
+        ∃ r, liftScanCore cfg verdict true body m outer rngs init args = .ok r) ∨
+    e.foreign = true :=
+  liftScan_err cfg verdict body hb m outer rngs init args e h
+
+/-- **'Inconsistent scan lengths' / 'length should be specified manually', exactly**: `lift.scan` raises the
+first iff the scanned arguments show two different sizes, the second iff they show none and no `length` is
+given (whatever the body, the collections and the rngs are) -/
+theorem scan_length_errors_iff {α : Type} [Inhabited α] (cfg : ScanCfg) (verdict : Bool) (body : Body α)
+    (hb : BodyForeign body) (m : LFilter) (outer : Vars α) (rngs : Rngs) (init args : List (Arr α))
+    (sizes : List Nat) (hs : argSizes cfg.inAxes args = .ok sizes) :
+    (liftScan cfg verdict body m outer rngs init args = .error .inconsistentLengths ↔
+      ∃ a ∈ sizes, ∃ b ∈ sizes, a ≠ b) ∧
+    (liftScan cfg verdict body m outer rngs init args = .error .lengthUnspecified ↔
+      cfg.length = none ∧ sizes = []) := by
+  have hfwd : ∀ e, decideLength cfg.length sizes = .error e →
+      liftScan cfg verdict body m outer rngs init args = .error e := by
+    intro e he
+    unfold liftScan liftScanCore
+    rw [hs]
+    show (decideLength cfg.length sizes >>= _) = _
+    rw [he]; rfl
+  have hbwd : ∀ e, (e = .inconsistentLengths ∨ e = .lengthUnspecified) →
+      liftScan cfg verdict body m outer rngs init args = .error e → decideLength cfg.length sizes = .error e := by
+    intro e he h
+    rcases liftScan_err cfg verdict body hb m outer rngs init args e h with ⟨s', hs', hd, _⟩ | ⟨hbd, _⟩ | hf
+    · rw [hs] at hs'; injection hs' with hs'; subst hs'; exact hd
+    · rcases he with he | he <;> (rw [he] at hbd; cases hbd)
+    · rcases he with he | he <;> (rw [he] at hf; cases hf)
+  have hinf := scan_length_inference cfg.length sizes
+  exact ⟨⟨fun h => hinf.1.1 (hbwd _ (Or.inl rfl) h), fun h => hfwd _ (hinf.1.2 h)⟩,
+         ⟨fun h => hinf.2.1.1 (hbwd _ (Or.inr rfl) h), fun h => hfwd _ (hinf.2.1.2 h)⟩⟩
+
+/-- **the broadcast-dependency error, exactly**: raised iff the constancy check rejects (`verdict = false`)
+and everything up to and including the broadcast pass succeeds -/
+theorem scan_broadcast_dependency_iff {α : Type} [Inhabited α] (cfg : ScanCfg) (verdict : Bool) (body : Body α)
+    (hb : BodyForeign body) (m : LFilter) (outer : Vars α) (rngs : Rngs) (init args : List (Arr α)) :
+    liftScan cfg verdict body m outer rngs init args = .error .broadcastDependency ↔
+      (verdict = false ∧ ∃ r, liftScanCore cfg verdict true body m outer rngs init args = .ok r) := by
+  constructor
+  · intro h
+    rcases liftScan_err cfg verdict body hb m outer rngs init args _ h with ⟨_, _, _, he⟩ | ⟨_, hv, hr⟩ | hf
+    · rcases he with he | he <;> cases he
+    · exact ⟨hv, hr⟩
+    · cases hf
+  · rintro ⟨hv, r, hr⟩
+    subst hv
+    exact liftScan_reject cfg body m outer rngs init args r hr
+
+/-- **'unmapped output variables' cannot come out of `lift.scan` or `lift.vmap`**: a collection is mutable in
+the inner scope only if some out filter matches it -/
+theorem unmapped_output_never {α : Type} [Inhabited α] (body : Body α) (hb : BodyForeign body) (m : LFilter)
+    (outer : Vars α) (rngs : Rngs) (init args : List (Arr α)) (verdict : Bool) :
+    (∀ cfg : ScanCfg, liftScan cfg verdict body m outer rngs init args ≠ .error .unmappedOutput) ∧
+    (∀ cfg : VmapCfg, liftVmap cfg verdict body m outer rngs args ≠ .error .unmappedOutput) := by
+  constructor
+  · intro cfg h
+    rcases liftScan_err cfg verdict body hb m outer rngs init args _ h with ⟨_, _, _, he⟩ | ⟨he, _⟩ | hf
+    · rcases he with he | he <;> cases he
+    · cases he
+    · cases hf
+  · intro cfg h
+    rcases liftVmap_err cfg verdict body hb m outer rngs args _ h with ⟨_, _, _, he⟩ | hf
+    · rcases he with he | he <;> cases he
+    · cases hf
+
+/-- **`vmap_axis_size_inference`** (`find_axis_size`, lift.py:798-817): `lift.vmap` raises 'Inconsistent batch
+axis sizes' iff the sizes read off the first leaf of every mapped group and off the mapped arguments show two
+different values, and 'axis_size should be specified manually' iff they show none and no `axis_size` is given;
+its other errors are foreign -/
+theorem vmap_axis_size_inference {α : Type} [Inhabited α] (cfg : VmapCfg) (verdict : Bool) (body : Body α)
+    (hb : BodyForeign body) (m : LFilter) (outer : Vars α) (rngs : Rngs) (args : List (Arr α))
+    (sizes : List Nat)
+    (hs : vmapSizes (cfg.inAx.map (·.axis)) (groupDict outer (cfg.inAx.map (·.filter))) cfg.inAxes args = .ok sizes) :
+    (liftVmap cfg verdict body m outer rngs args = .error .inconsistentLengths ↔ ∃ a ∈ sizes, ∃ b ∈ sizes, a ≠ b) ∧
+    (liftVmap cfg verdict body m outer rngs args = .error .lengthUnspecified ↔ cfg.axisSize = none ∧ sizes = []) ∧
+    (∀ e, liftVmap cfg verdict body m outer rngs args = .error e →
+      e = .inconsistentLengths ∨ e = .lengthUnspecified ∨ e.foreign = true) := by
+  have hfwd : ∀ e, decideLength cfg.axisSize sizes = .error e →
+      liftVmap cfg verdict body m outer rngs args = .error e := by
+    intro e he
+    unfold liftVmap
+    simp only []
+    rw [hs]
+    show (decideLength cfg.axisSize sizes >>= _) = _
+    rw [he]; rfl
+  have hbwd : ∀ e, (e = .inconsistentLengths ∨ e = .lengthUnspecified) →
+      liftVmap cfg verdict body m outer rngs args = .error e → decideLength cfg.axisSize sizes = .error e := by
+    intro e he h
+    rcases liftVmap_err cfg verdict body hb m outer rngs args e h with ⟨s', hs', hd, _⟩ | hf
+    · rw [hs] at hs'; injection hs' with hs'; subst hs'; exact hd
+    · rcases he with he | he <;> (rw [he] at hf; cases hf)
+  have hinf := scan_length_inference cfg.axisSize sizes
+  refine ⟨⟨fun h => hinf.1.1 (hbwd _ (Or.inl rfl) h), fun h => hfwd _ (hinf.1.2 h)⟩,
+          ⟨fun h => hinf.2.1.1 (hbwd _ (Or.inr rfl) h), fun h => hfwd _ (hinf.2.1.2 h)⟩, ?_⟩
+  intro e h
+  rcases liftVmap_err cfg verdict body hb m outer rngs args e h with ⟨_, _, _, he⟩ | hf
+  · rcases he with he | he
+    · exact Or.inl he
+    · exact Or.inr (Or.inl he)
+  · exact Or.inr (Or.inr hf)
+
+/-- the sizes `find_axis_size` reads: one per mapped group with leaves (the first leaf in jax's sorted
+flattening order, along the group's axis) and those of the mapped arguments -/
+theorem vmap_sizes_read {α : Type} (iv : List (Option Int)) (groups : List (Vars α)) (t : AxesTree)
+    (args : List (Arr α)) :
+    vmapSizes iv groups t args =
+      (do let l1 ← mapE groupSizeOpt (iv.zip groups); let l2 ← argSizes t args; pure (l1.filterMap id ++ l2)) ∧
+    (∀ g : Vars α, groupSizeOpt (none, g) = .ok none) ∧
+    (∀ ax (g : Vars α) a, firstLeaf g = some a → groupSizeOpt (some ax, g) = (shapeAt a ax).map some) :=
+  ⟨rfl, fun _ => rfl, fun ax g a h => by simp [groupSizeOpt, h]⟩
+
+/-! ## 8. `lift.remat_scan` -/
+
+/-- **nested loops = one flat loop** (the loop-combinator core of `remat_scan_eq_flat_loop`): a nest of threaded
+loops with `lengths = [l₁, …, l_k]`, the body called at the full multi-index, is ONE threaded loop of
+`∏ lengths` iterations over the multi-indices in row-major order (`allIdx lengths`, i.e. flat index
+`((i₁·l₂)+i₂)·…`): same final carry, same outputs under the same multi-indices.  Needs the carry-structure
+check to be reflexive and transitive (it is an equality of shapes). -/
+theorem nested_loops_eq_flat_loop {σ ω : Type} (step : σ → Ix → Option (σ × ω)) (same : σ → σ → Bool)
+    (hrefl : ∀ s, same s s = true) (htrans : ∀ a b c, same a b = true → same b c = true → same a c = true)
+    (lengths : List Nat) (s : σ) :
+    nestRun step same lengths [] s = runG step same s (allIdx lengths) ∧
+    (allIdx lengths).length = lengths.foldr (· * ·) 1 := by
+  refine ⟨?_, allIdx_length lengths⟩
+  have := nestRun_eq_flat step same hrefl htrans lengths [] s
+  simpa using this
+
+example : allIdx [2, 3] = [[0, 0], [0, 1], [0, 2], [1, 0], [1, 1], [1, 2]] := by decide
+
+/-- the carry-structure check of the model is reflexive and transitive, and each level of a nest is a
+`loopRun`, which is `runG` at index type `Nat` -/
+theorem same_struct_equiv {α : Type} :
+    (∀ s : Vars α × List (Arr α), sameStruct s s = true) ∧
+    (∀ a b c : Vars α × List (Arr α), sameStruct a b = true → sameStruct b c = true → sameStruct a c = true) ∧
+    (∀ {σ ω : Type} (step : σ → Nat → Option (σ × ω)) (same : σ → σ → Bool) (order : List Nat) (s : σ),
+      loopRun step same s order = runG step same s order) := by
+  refine ⟨?_, ?_, fun step same order s => loopRun_eq_runG step same order s⟩
+  · intro s; simp [sameStruct]
+  · intro a b c h1 h2
+    simp only [sameStruct, Bool.and_eq_true, decide_eq_true_eq] at h1 h2 ⊢
+    exact ⟨h1.1.trans h2.1, h1.2.trans h2.2⟩
+
+/-- the key a split stream has at nesting depth `path.length`: every level of `remat_scan` splits the key it was
+handed once more (`rng_split_distinct_unsplit_equal`, level by level) -/
+def nestedKey : Key → List (Nat × Nat) → Key
+  | k, [] => k
+  | k, (l, i) :: rest => nestedKey (Key.split k l i) rest
+
+/-- **split streams under `remat_scan`**: the keys of two different multi-indices differ (A-RNG), for any
+`lengths` -/
+theorem remat_split_keys_distinct (k : Key) (lengths : List Nat) (idx idx' : Ix)
+    (h1 : idx.length = lengths.length) (h2 : idx'.length = lengths.length) (hne : idx ≠ idx') :
+    nestedKey k (lengths.zip idx) ≠ nestedKey k (lengths.zip idx') := by
+  have key : ∀ (p p' : List (Nat × Nat)) (k k' : Key), p.length = p'.length →
+      nestedKey k p = nestedKey k' p' → p.map (·.1) = p'.map (·.1) → k = k' ∧ p = p' := by
+    intro p
+    induction p with
+    | nil =>
+      intro p' k k' hl h _
+      cases p' with
+      | nil => exact ⟨h, rfl⟩
+      | cons q qs => simp at hl
+    | cons q qs ih =>
+      intro p' k k' hl h hm
+      cases p' with
+      | nil => simp at hl
+      | cons q' qs' =>
+        obtain ⟨l, i⟩ := q
+        obtain ⟨l', i'⟩ := q'
+        simp only [List.map_cons, List.cons.injEq] at hm
+        simp only [nestedKey] at h
+        obtain ⟨hk, hq⟩ := ih qs' _ _ (by simpa using hl) h hm.2
+        injection hk with hk1 hk2 hk3
+        subst hk1; subst hk2; subst hk3; subst hq
+        exact ⟨rfl, rfl⟩
+  intro h
+  have := key (lengths.zip idx) (lengths.zip idx') k k (by simp [h1, h2]) h (by
+    rw [List.map_fst_zip (by omega), List.map_fst_zip (by omega)])
+  apply hne
+  have h3 := congrArg (fun p => p.map (·.2)) this.2
+  rwa [List.map_snd_zip (by omega), List.map_snd_zip (by omega)] at h3
+
+/-- the key a stream has at nesting depth `path.length` when its `split_rngs` flag is `sp`: `rematScan` hands the
+SAME `split_rngs` to every level (`RematCfg.scanCfg` does not depend on the level), so every level applies the
+same flag -/
+def nestedKeyFlag (sp : Bool) : Key → List (Nat × Nat) → Key
+  | k, [] => k
+  | k, (l, i) :: rest => nestedKeyFlag sp (if sp then Key.split k l i else k) rest
+
+/-- **unsplit streams under `remat_scan`**: a stream declared unsplit keeps its key at EVERY nesting level — all
+`∏ lengths` iterations get the very same key; a split one gets the nested split key of
+`remat_split_keys_distinct`.  And the model threads `split_rngs` to all levels: the scan configuration of a
+level is the same for every level but for its length. -/
+theorem remat_unsplit_keys_equal (k : Key) (path path' : List (Nat × Nat)) (rc : RematCfg) (l l' : Nat) :
+    nestedKeyFlag false k path = k ∧ nestedKeyFlag false k path = nestedKeyFlag false k path' ∧
+    nestedKeyFlag true k path = nestedKey k path ∧
+    (rc.scanCfg l).splitRngs = rc.splitRngs ∧ (rc.scanCfg l).splitRngs = (rc.scanCfg l').splitRngs := by
+  have h1 : ∀ (p : List (Nat × Nat)) (k : Key), nestedKeyFlag false k p = k := by
+    intro p
+    induction p with
+    | nil => intro k; rfl
+    | cons q qs ih => intro k; obtain ⟨a, b⟩ := q; simp [nestedKeyFlag, ih]
+  have h2 : ∀ (p : List (Nat × Nat)) (k : Key), nestedKeyFlag true k p = nestedKey k p := by
+    intro p
+    induction p with
+    | nil => intro k; rfl
+    | cons q qs ih => intro k; obtain ⟨a, b⟩ := q; simp [nestedKeyFlag, nestedKey, ih]
+  exact ⟨h1 path k, by rw [h1, h1], h2 path k, rfl, rfl⟩
+
+/-- one level of the nest hands the next level exactly these keys: group `g` of the rngs of index `i` holds every
+stream of that group with `Key.split k l i` if the group's flag says split and with `k` itself otherwise -/
+theorem remat_level_keys (sr : List (LFilter × Bool)) (rngs : Rngs) (l i : Nat) :
+    iterRngGroups sr rngs l i = ((List.range sr.length).zip sr).map (fun p =>
+      (roleGroup rngs (sr.map (·.1)) p.1).map (fun sk => (sk.1, nestedKeyFlag p.2.2 sk.2 [(l, i)]))) := by
+  unfold iterRngGroups
+  apply List.map_congr_left
+  intro p _
+  apply List.map_congr_left
+  intro sk _
+  cases p.2.2 <;> rfl
+
+example : nestedKey (.seed "params") ([2, 3].zip [1, 2]) = .split (.split (.seed "params") 2 1) 3 2 := rfl
 
 /- Full statement aimed at (DESIGN.md `remat_scan_eq_flat_loop`):
      `remat_scan(body, lengths)` equals ONE explicit loop of `∏ lengths` iterations in lexicographic index
      order, iteration `(i₀, i₁, …)` seeing slice `[i₀][i₁]…` of every axis collection and the key
      `split(split(k, l₀)[i₀], l₁)[i₁] …` of every split stream.
-   What is proved is the unfolding into nested explicit loops (one per entry of `lengths`, each of them the
-   explicit loop of `scan_eq_loop`).  Missing: flattening the nest into a single loop (nested slicing =
-   slicing at the multi-index, nested stacking = stacking then reshaping, and the per-level broadcast pass,
-   which needs the body's broadcast outputs to be loop-invariant at every level). -/
+   Proved: (a) `remat_scan` is the nest of explicit loops, one per entry of `lengths`, each of them the explicit
+   loop of `scan_eq_loop` (below); (b) a nest of threaded loops is one flat loop in row-major order with the
+   carry threaded through all iterations (`nested_loops_eq_flat_loop`).
+   Missing to glue (a) to (b): that the scope plumbing BETWEEN two levels is the identity — merging the sliced
+   groups into the inner scope and regrouping them by the same filters gives the groups back, publishing the
+   inner results and re-filtering them gives the inner results (dict algebra up to key order), nested
+   `take`/`stack` = `take`/`stack` at the multi-index — and that the per-level broadcast pass is idempotent
+   (needs the body's broadcast outputs to be loop-invariant).  Tied by the correspondence run (flat-loop oracle). -/
 theorem remat_scan_eq_nested_loops_partial {α : Type} [Inhabited α] (rc : RematCfg) (verdict : Bool)
     (body : Body α) (lengths : List Nat) (m : LFilter) (v : Vars α) (r : Rngs) (c xs : List (Arr α)) :
     opt (rematScan rc verdict body lengths m v r c xs) =
